@@ -176,6 +176,25 @@ def run_obligations(run, obs, jobs=None, key_of=None, confirm=None):
     return results
 
 
+def run_probes(run, probes):
+    """Concrete companions of symbolic obligations: (Ob, call expression) pairs evaluated in a fresh interpreter
+    WITHOUT tracing.  CrossHair neutralises some library machinery while tracing (e.g. functools.lru_cache), so an
+    effect that lives there is only visible concretely.  A probe returning False is reported like a replayed
+    counterexample; probes are labelled as concrete in the evidence (they are not solver verdicts)."""
+    for ob, call in probes:
+        rep = replay_call(ob, call)
+        name = f'probe:{ob.name}'
+        if rep.get('ok') is False:
+            v = run.report_violation(name, f'{name} {call}', dict(kind='crosshair', harness=ob.file, func=ob.func,
+                                                                     call=call, env=ob.env, concrete=rep),
+                                     f'concrete probe {call} -> {rep}')
+            run.add(name, v, 0, dict(call=call, replay=rep))
+        elif rep.get('ok') is True:
+            run.add(name, 'witness-ok', 0, dict(call=call))
+        else:
+            run.add(name, 'inconclusive', 0, dict(call=call, replay=rep))
+
+
 def replay_file(path):
     """`bin/check Cxx --replay file` for crosshair-kind replays."""
     with open(path) as f:
